@@ -146,8 +146,8 @@ func genItems(t *rapid.T, keyKind, valueKind int, max int) []Item {
 	return out
 }
 
-func sortedUnique(t *rapid.T, label string) []Item {
-	keys := rapid.SliceOfNDistinct(rapid.IntRange(-5, 12), 0, 6, func(i int) int { return i }).Draw(t, label)
+func sortedKeys(t *rapid.T, label string) []Item {
+	keys := rapid.SliceOfN(rapid.IntRange(-2, 6), 0, 6).Draw(t, label)
 	sort.Ints(keys)
 	var out []Item
 	for _, k := range keys {
@@ -172,8 +172,8 @@ func gen(t *rapid.T) Case {
 			c.Inner = append(c.Inner, genItems(t, keyKind, -1, 3))
 		}
 	case "join-missing":
-		c.Items = sortedUnique(t, "basekeys")
-		c.Other = sortedUnique(t, "joinedkeys")
+		c.Items = sortedKeys(t, "basekeys")
+		c.Other = sortedKeys(t, "joinedkeys")
 	default:
 		c.Items = genItems(t, keyKind, -1, 7)
 	}
@@ -251,13 +251,16 @@ func expected(c Case) (items []pair, ordered bool, wantErr bool) {
 	case "join-missing":
 		// the base's items, plus those of joined whose key the base lacks, in key order
 		other := listOf(c.Other)
+		inBase := map[int]bool{}
+		for _, it := range c.Items {
+			inBase[*it.K.Int] = true
+		}
 		i, j := 0, 0
 		for i < len(in) || j < len(other) {
 			switch {
+			case j < len(other) && inBase[*c.Other[j].K.Int]:
+				j++
 			case j >= len(other) || (i < len(in) && *c.Items[i].K.Int <= *c.Other[j].K.Int):
-				if j < len(other) && *c.Items[i].K.Int == *c.Other[j].K.Int {
-					j++
-				}
 				items = append(items, in[i])
 				i++
 			default:
@@ -293,7 +296,7 @@ func valid(c Case) bool {
 	}
 	increasing := func(items []Item) bool {
 		for i, it := range items {
-			if it.K.Int == nil || (i > 0 && *items[i-1].K.Int >= *it.K.Int) {
+			if it.K.Int == nil || (i > 0 && *items[i-1].K.Int > *it.K.Int) {
 				return false
 			}
 		}
@@ -524,6 +527,11 @@ type FindCase struct {
 	Keys   []V  `json:"keys"`
 	Probes []V  `json:"probes"`
 	Sorted bool `json:"sorted"`
+	// Replaces: the feature is added to a mutable world that already holds a
+	// collection with the same ID and these keys (sorted or not), and looked up there
+	Replaces       []V  `json:"replaces,omitempty"`
+	ReplacesSorted bool `json:"replaces_sorted,omitempty"`
+	InWorld        bool `json:"in_world,omitempty"`
 }
 
 func genFind(t *rapid.T) FindCase {
@@ -534,6 +542,12 @@ func genFind(t *rapid.T) FindCase {
 	}
 	for i, n := 0, rapid.IntRange(1, 6).Draw(t, "nprobes"); i < n; i++ {
 		c.Probes = append(c.Probes, genV(t, kind))
+	}
+	if c.InWorld = rapid.IntRange(0, 2).Draw(t, "inworld") == 0; c.InWorld && rapid.Bool().Draw(t, "replaces") {
+		c.ReplacesSorted = rapid.Bool().Draw(t, "replacessorted")
+		for i, n := 0, rapid.IntRange(1, 6).Draw(t, "nreplaced"); i < n; i++ {
+			c.Replaces = append(c.Replaces, genV(t, kind))
+		}
 	}
 	return c
 }
@@ -565,6 +579,38 @@ func checkFind(c FindCase) vlib.Outcome {
 	if c.Sorted {
 		f.Sort()
 	}
+	type finder interface {
+		FindValue(key any) (any, bool)
+		FindValues(key any, values []any) []any
+	}
+	var found finder = f
+	if c.InWorld {
+		w := ingest.NewBasicMutableWorld()
+		if len(c.Replaces) > 0 {
+			old := &ingest.CollectionFeature{CollectionID: f.CollectionID}
+			for i, k := range c.Replaces {
+				if kind(k) != kind(c.Probes[0]) || (k.F != nil && *k.F != *k.F) {
+					return vlib.Outcome{Skip: true}
+				}
+				old.Keys = append(old.Keys, k.value())
+				old.Values = append(old.Values, 1000+i)
+			}
+			if c.ReplacesSorted {
+				old.Sort()
+			}
+			if err := w.AddFeature(old); err != nil {
+				return vlib.Outcome{Skip: true}
+			}
+		}
+		if err := w.AddFeature(f.Clone()); err != nil {
+			return vlib.Outcome{Skip: true}
+		}
+		wf, ok := w.FindFeatureByID(f.FeatureID()).(finder)
+		if !ok {
+			return vlib.Fail("the collection %s isn't found in the world, or has no FindValue", f.FeatureID())
+		}
+		found = wf
+	}
 	dup := false
 	for _, p := range c.Probes {
 		var want []string
@@ -574,7 +620,7 @@ func checkFind(c FindCase) vlib.Outcome {
 			}
 		}
 		dup = dup || len(want) > 1
-		v, ok := f.FindValue(p.value())
+		v, ok := found.FindValue(p.value())
 		if ok != (len(want) > 0) {
 			return vlib.Fail("FindValue(%s) on keys %v (sorted %v) reports found=%v; a scan finds %d entries", canon(p.value()), keysOf(f), c.Sorted, ok, len(want))
 		}
@@ -582,7 +628,7 @@ func checkFind(c FindCase) vlib.Outcome {
 			return vlib.Fail("FindValue(%s) on keys %v (sorted %v) returns the value of entry %s; the entries with that key are %v", canon(p.value()), keysOf(f), c.Sorted, canon(v), want)
 		}
 		var all []string
-		for _, v := range f.FindValues(p.value(), nil) {
+		for _, v := range found.FindValues(p.value(), nil) {
 			all = append(all, canon(v))
 		}
 		sort.Strings(all)
@@ -597,6 +643,12 @@ func checkFind(c FindCase) vlib.Outcome {
 	}
 	if dup {
 		out.Classes = append(out.Classes, "duplicate-keys")
+	}
+	if c.InWorld {
+		out.Classes = append(out.Classes, "looked-up-in-world")
+	}
+	if len(c.Replaces) > 0 {
+		out.Classes = append(out.Classes, "replaces-earlier-feature")
 	}
 	return out
 }
@@ -620,12 +672,12 @@ func contains(l []string, s string) bool {
 
 func TestPropFunctions(t *testing.T) {
 	vlib.Run(t, vlib.Config{ID: "C24", Name: "functions", CaseTimeout: 20e9,
-		Rule: "collections of 0-7 items with keys of one kind (ints, floats, strings, feature IDs; duplicates common) and values of one or several kinds, built with collection/pair and given to collection, take, top, filter, map, map-items, flatten, sum-by-key, count-values, count-keys, join-missing (sorted unique int keys) and count, with n from {-2,-1,0,1,2,3,5,100}, all evaluated by the VM with the real function library; oracle: each function's definition over lists (ordered where the documentation implies an order, as a multiset where the result comes from a map; top validated as some n items with the greatest values in descending order), and any reported count equals the number of items iteration yields; non-trivial = at least two input items"},
+		Rule: "collections of 0-7 items with keys of one kind (ints, floats, strings, feature IDs; duplicates common) and values of one or several kinds, built with collection/pair and given to collection, take, top, filter, map, map-items, flatten, sum-by-key, count-values, count-keys, join-missing (sorted int keys, repeats allowed) and count, with n from {-2,-1,0,1,2,3,5,100}, all evaluated by the VM with the real function library; oracle: each function's definition over lists (ordered where the documentation implies an order, as a multiset where the result comes from a map; top validated as some n items with the greatest values in descending order), and any reported count equals the number of items iteration yields; non-trivial = at least two input items"},
 		gen, check)
 }
 
 func TestPropFind(t *testing.T) {
 	vlib.Run(t, vlib.Config{ID: "C24", Name: "collection-feature-lookup", NoWAL: true,
-		Rule: "collection features with 0-12 keys of one kind (duplicates common), sorted or not, probed with 1-6 keys of that kind (present and absent); oracle: FindValue finds an entry exactly when a linear scan does, returning the value of one of the entries with that key, and FindValues returns all of them; non-trivial = at least three keys"},
+		Rule: "collection features with 0-12 keys of one kind (duplicates common), sorted or not, directly or after being added to a mutable world (optionally replacing an earlier collection with the same ID, sorted or not), probed with 1-6 keys of that kind (present and absent); oracle: FindValue finds an entry exactly when a linear scan does, returning the value of one of the entries with that key, and FindValues returns all of them; non-trivial = at least three keys"},
 		genFind, checkFind)
 }
